@@ -27,6 +27,11 @@ type convSpec struct {
 	Mode  int       `json:"mode"` // 0 SMTP, 1 LMTP plain, 2 LMTP per-recipient
 	NRcpt int       `json:"nrcpt"`
 	Msgs  []convMsg `json:"msgs"`
+	// LineLimit: Server.MaxLineLength: 0 the library's default, -1 none at
+	// all, else the value (every command line of a conversation is short)
+	LineLimit int `json:"line_limit,omitempty"`
+	// Unrelated: bit 0 a Debug writer, bit 1 a (long) WriteTimeout
+	Unrelated int `json:"unrelated,omitempty"`
 }
 
 // convBuilt is the client octet stream of a conversation with everything the
@@ -155,6 +160,8 @@ func genConvSpec(t *rapid.T) convSpec {
 	for i, n := 0, rapid.IntRange(1, 2).Draw(t, "nmsgs"); i < n; i++ {
 		s.Msgs = append(s.Msgs, genConvMsg(t, fmt.Sprintf("m%d", i), 5))
 	}
+	s.LineLimit = rapid.SampledFrom([]int{0, 0, -1, -1, 1000}).Draw(t, "line_limit")
+	s.Unrelated = rapid.IntRange(0, 3).Draw(t, "unrelated")
 	return s
 }
 
@@ -200,9 +207,16 @@ func runCut(b convBuilt, s convSpec, cut int, fault string, cfg harness.Config, 
 		}
 	}
 	cfg.EOFWithData = fault == "eof-with-data"
+	if cfg.MaxLineLength == 0 {
+		cfg.MaxLineLength = s.LineLimit
+	}
+	cfg.Debug = cfg.Debug || s.Unrelated&1 != 0
+	if s.Unrelated&2 != 0 && cfg.WriteTimeoutMs == 0 {
+		cfg.WriteTimeoutMs = 60000
+	}
 	script.LMTPSession = s.Mode == 2
 	if script.DefaultData == nil {
-		script.DefaultData = &harness.DataPlan{Read: harness.ReadPlan{Limit: -1}, Honest: true}
+		script.DefaultData = &harness.DataPlan{Read: harness.ReadPlan{Limit: -1, Retry: 3}, Honest: true}
 	}
 	r := harness.NewRig(cfg, script)
 	w, _ := r.Dial()
@@ -304,6 +318,14 @@ func c07Run(c c07Case) Verdict {
 			if rec.Err == nil {
 				return failf("no-terminal-error", "message %d: reader ended without EOF or error", k)
 			}
+			// a backend that asks again (a buffered reader, a lenient parser
+			// that goes on after an error) is told the same thing: never
+			// end-of-file, never more octets
+			for _, rr := range rec.AfterErr {
+				if rr.Err == "EOF" || rr.Err == "" || rr.N != 0 {
+					return failf("eof-after-failure", "message %d: the reader failed with %q (stream cut at %d, message complete at %d), but a later Read returned (%d, %q): an incomplete message ends in end-of-file after all", k, rec.ErrStr, c.Cut, b.completeAt[k], rr.N, rr.Err)
+				}
+			}
 			if complete && c.Fault != "abort" {
 				return failf("complete-not-delivered", "message %d was complete at %d (cut %d) but the reader failed with %q", k, b.completeAt[k], c.Cut, rec.ErrStr)
 			}
@@ -370,7 +392,7 @@ func c07AbandonRun(c c07AbandonCase) Verdict {
 	if c.Action == "OVERLIMIT" {
 		cfg.MaxMessageBytes = int64(len(c.Conv.Msgs[0].Body)) + 2
 	}
-	script := harness.Script{LMTPSession: c.Conv.Mode == 2, DefaultData: &harness.DataPlan{Read: harness.ReadPlan{Limit: -1}, Honest: true}}
+	script := harness.Script{LMTPSession: c.Conv.Mode == 2, DefaultData: &harness.DataPlan{Read: harness.ReadPlan{Limit: -1, Retry: 3}, Honest: true}}
 	r := harness.NewRig(cfg, script)
 	w, _ := r.Dial()
 	stream := append([]byte(nil), b.stream[:at]...)
@@ -471,7 +493,7 @@ type c07HugeCase struct {
 func c07HugeRun(c c07HugeCase) Verdict {
 	lmtp := c.Mode != 0
 	cfg := harness.Config{LMTP: lmtp, EOFWithData: c.Fault == "eof-with-data"}
-	script := harness.Script{LMTPSession: c.Mode == 2, DefaultData: &harness.DataPlan{Read: harness.ReadPlan{Limit: -1}, Honest: true}}
+	script := harness.Script{LMTPSession: c.Mode == 2, DefaultData: &harness.DataPlan{Read: harness.ReadPlan{Limit: -1, Retry: 3}, Honest: true}}
 	r := harness.NewRig(cfg, script)
 	w, _ := r.Dial()
 	if e := preamble(w, lmtp, true, 1); e != "" {
